@@ -241,6 +241,10 @@ def shapes():
         ('commands-from-named-lvalues(option;c1:prod(arg,option_p);c2:switch)/second-construction',
          commands_named(opt_o(), [('c1', 't1', prod(A(), opt('ld', 'p', 'port', 'Str'))), ('c2', 't2', sw('lf', 'f', 'flag'))])),
         ('prod(base(arg),switch)', prod(base(A()), sw_f())),
+        # a type-erased parser holding a positional, with a value-taking option OUTSIDE of it: the hidden argument still
+        # learns about the option names of the whole parser (an option's value is never taken as a positional)
+        ('prod(base(arg),option)', prod(base(A()), opt_o())),
+        ('prod(option_p,base(prod(arg_s,switch)))', prod(opt('ld', 'p', 'port', 'Str'), base(prod(A('la', 'Str'), sw_f())))),
         ('optional(base(prod(arg,option)))', optional(base(prod(A(), opt_o())))),
         ('prod(cref(option),cref(arg))', prod(cref(opt_o()), cref(A()))),
         ('many(cref(prod(arg,switch_x)))', many(cref(prod(A(), sw('lb', 'x', 'xflag'))))),
